@@ -481,7 +481,7 @@ func record(sec *vk.Section, c rlCase, out outcome) {
 // TestCoalescingExact: single Adds and clock advances against the exact reference machine.
 func TestCoalescingExact(t *testing.T) {
 	sec := vk.Sec("CoalescingExact")
-	vk.Check(t, 12000, 500000, func(rt *rapid.T) {
+	vk.Check(t, 12000, 2500000, func(rt *rapid.T) {
 		c := genCase(rt, true)
 		out, err := runRL(t, c)
 		if err != nil {
@@ -494,7 +494,7 @@ func TestCoalescingExact(t *testing.T) {
 // TestCoalescingRacy: bursts from several goroutines, Adds exactly at expiry, slow consumers, Close/cancel anywhere.
 func TestCoalescingRacy(t *testing.T) {
 	sec := vk.Sec("CoalescingRacy")
-	vk.Check(t, 8000, 400000, func(rt *rapid.T) {
+	vk.Check(t, 8000, 1200000, func(rt *rapid.T) {
 		c := genCase(rt, false)
 		out, err := runRL(t, c)
 		if err != nil {
